@@ -149,7 +149,7 @@ Definition contents (s : state) (p i : N) : option N :=
 Theorem C02_realloc_main :
   forall (c : cfg) (ops : list op) (p n : N) (e : env) (b : blk),
     cfg_ok c = true ->
-    policy_ok c (ops ++ [Realloc p n e]) -> api_ok c (ops ++ [Realloc p n e]) -> history_short (ops ++ [Realloc p n e]) ->
+    policy_ok c (ops ++ [Realloc p n e]) -> api_ok c (ops ++ [Realloc p n e]) ->
     let s := run c ops in
     let x := step c s (Realloc p n e) in
     find_blk p (live s) = Some b -> n <> 0 ->
@@ -165,10 +165,9 @@ Theorem C02_realloc_main :
              /\ (forall i, contents (st_of x) q i = contents s p i)
              /\ (forall q', q' <> p -> q' <> q -> find_blk q' (live (st_of x)) = find_blk q' (live s))).
 Proof.
-  intros c ops p n e b Hc Hp Ha Hs s x Hfind Hn. pose proof (cfg_ok_facts c Hc) as F.
-  destruct (prefix_inv c _ ops Hc Hp Ha Hs ltac:(eexists; reflexivity)) as [I _]. fold s in I.
-  assert (Hs' : N.of_nat (length ops) + 1 < 4294967296).
-  { unfold history_short in Hs. rewrite app_length, Nat2N.inj_add in Hs. cbn in Hs. lia. }
+  intros c ops p n e b Hc Hp Ha s x Hfind Hn. pose proof (cfg_ok_facts c Hc) as F.
+  destruct (prefix_inv c _ ops Hc Hp Ha ltac:(eexists; reflexivity)) as [I _]. fold s in I.
+  assert (Hs' : 0 + 1 < 4294967296) by lia.
   pose proof (hist_ok_last _ c ops _ Hp) as Hpol. fold s in Hpol.
   destruct (find_blk_some _ _ _ Hfind) as [Hb Hbp].
   destruct (live_size c F _ s I b Hb) as [Z _]. rewrite Hbp in Z.
@@ -208,7 +207,7 @@ Qed.
 
 Theorem C02_footprint_main :
   forall (c : cfg) (ops : list op),
-    cfg_ok c = true -> policy_ok c ops -> api_ok c ops -> history_short ops ->
+    cfg_ok c = true -> policy_ok c ops -> api_ok c ops ->
     forall pre, prefix pre ops ->
     let s := run c pre in
     forall i, i < nbuckets c ->
@@ -217,8 +216,8 @@ Theorem C02_footprint_main :
       /\ nlive_of s i + cfree s i = cnum s i * nobj c (b2s i)
       /\ (bucket s i = [] -> cfree s i = 0).
 Proof.
-  intros c ops Hc Hp Ha Hs pre Hpre s i Hi. pose proof (cfg_ok_facts c Hc) as F.
-  destruct (prefix_inv c ops pre Hc Hp Ha Hs Hpre) as [I _]. fold s in I.
+  intros c ops Hc Hp Ha pre Hpre s i Hi. pose proof (cfg_ok_facts c Hc) as F.
+  destruct (prefix_inv c ops pre Hc Hp Ha Hpre) as [I _]. fold s in I.
   destruct (footprint_of_inv c _ s i F I Hi) as (A & B & C).
   repeat split; auto. intros Hb. apply (map_only_when_full c _ s i I Hi Hb).
 Qed.
@@ -226,16 +225,15 @@ Qed.
 (* ---------- C04 in admissible histories: the failed call returns null (it cannot stop) ---------- *)
 Theorem C04_null_main :
   forall (c : cfg) (ops : list op) (o : op) (len : N) (e : env),
-    cfg_ok c = true -> policy_ok c (ops ++ [o]) -> api_ok c (ops ++ [o]) -> history_short (ops ++ [o]) ->
+    cfg_ok c = true -> policy_ok c (ops ++ [o]) -> api_ok c (ops ++ [o]) ->
     let s := run c ops in
     map_len c s o = Some len -> op_env o = Some e -> env_ret e = 0 ->
     st_of (step c s o) = s /\ res_of (step c s o) = RNull
     /\ policy_calls (cbs_of (step c s o)) = [CMap len (if aligned c then sb c else 0) 0].
 Proof.
-  intros c ops o len e Hc Hp Ha Hs s Hm He E0. pose proof (cfg_ok_facts c Hc) as F.
-  destruct (prefix_inv c _ ops Hc Hp Ha Hs ltac:(eexists; reflexivity)) as [I _]. fold s in I.
-  assert (Hs' : N.of_nat (length ops) + 1 < 4294967296).
-  { unfold history_short in Hs. rewrite app_length, Nat2N.inj_add in Hs. cbn in Hs. lia. }
+  intros c ops o len e Hc Hp Ha s Hm He E0. pose proof (cfg_ok_facts c Hc) as F.
+  destruct (prefix_inv c _ ops Hc Hp Ha ltac:(eexists; reflexivity)) as [I _]. fold s in I.
+  assert (Hs' : 0 + 1 < 4294967296) by lia.
   destruct (map_failure_transparent c s o len e Hc Hm He E0) as (A & B & C).
   destruct (step_inv c F _ s I Hs' o (hist_ok_last _ c ops o Hp) (hist_ok_last _ c ops o Ha)) as [_ NS].
   destruct B as [B|B]; [|congruence]. auto.
